@@ -394,3 +394,35 @@ func HarnessC18ForeignReply() {
 	})
 	vrt.Observe("done", true)
 }
+
+// HarnessC18FirstValue: what SendWithReply does with the listener: it reads ONE value from the reply channel and
+// hands it to its caller as the reply. With ListenForReplyTimeout set (the timeout passes at an arbitrary moment,
+// possibly just as the reply arrives) that value is always either the caller's own reply or a reply carrying the
+// timeout error - never the zero value of a channel closed empty-handed, which would read as "handled, no error".
+func HarnessC18FirstValue() {
+	finished := 0
+	sub := &notifSubscriber{}
+	timeout := 100 * time.Millisecond
+	c18Timeout = &timeout
+	b := c18Backend(sub, &c18Pub{}, &finished, false)
+	c18Timeout = nil
+	replies, err := b.ListenForNotifications(context.Background(), BackendListenForNotificationsParams{OperationID: "mine"})
+	vrt.Assert(err == nil, "listening")
+	own := c18Notification("mine", 10, false)
+	if vrt.Bool("a.reply.arrives") {
+		go func() {
+			vrt.MayBlock()
+			sub.chs[0] <- own
+		}()
+	}
+	r, ok := <-replies
+	vrt.Assert(ok, "the listener does not close the reply channel of a caller that is reading without leaving a reply or the timeout error")
+	if ok {
+		vrt.Assert(r.Error != nil || (r.NotificationMessage == own && r.HandlerResult.N == 10), "the value is the caller's reply or carries the timeout error")
+	}
+	vrt.AtQuiescence(func() {
+		vrt.Assert(finished == 1, "OnListenForReplyFinished runs exactly once")
+		vrt.Assert(vrt.Live("requestreply.PubSubBackend") == 0, "the listener goroutine terminates")
+	})
+	vrt.Observe("ok", ok)
+}
